@@ -5,6 +5,7 @@
 import CnvVerif.Model.Ranges
 import CnvVerif.Model.IntervalSpec
 import CnvVerif.Lemmas.Ranges
+import CnvVerif.Lemmas.RangesMulti
 namespace CnvVerif.C07
 open CnvVerif
 
@@ -60,6 +61,27 @@ theorem by_ranges_per_query (c : String) (table other : Table)
     byRangesDf table other mode ke =
       other.map (fun b => (b, selectRange table (some b.s) (some b.e) mode)) :=
   byRangesDf_single c table other ht ho hne hno mode ke
+
+/-- `by_ranges` over ANY two tables, chromosome by chromosome: the query rows are visited grouped by chromosome in
+    order of first appearance, each paired with the selection from the queried table's rows of THAT chromosome; a
+    chromosome missing from the queried table contributes nothing (keep_empty off) or empty selections (on).  The
+    single-chromosome fast path is not observable. -/
+theorem by_ranges_per_chromosome (table other : Table) (mode : Mode) (ke : Bool) :
+    byRangesDf table other mode ke =
+      (chromsInOrder other).flatMap (fun c =>
+        let src := table.filter (fun r => r.chrom == c)
+        let qs := other.filter (fun r => r.chrom == c)
+        if !src.isEmpty then qs.map (fun b => (b, selectRange src (some b.s) (some b.e) mode))
+        else if ke then qs.map (fun b => (b, []))
+        else []) :=
+  byRangesDf_per_chromosome table other mode ke
+
+/-- … so every reported pair is a query row with exactly the selection from the rows of its own chromosome -/
+theorem by_ranges_never_crosses_chromosomes (table other : Table) (mode : Mode) (ke : Bool) :
+    ∀ p ∈ byRanges table other mode ke, p.1 ∈ other ∧
+      p.2 = (if (table.filter (fun r => r.chrom == p.1.chrom)).isEmpty then []
+             else selectRange (table.filter (fun r => r.chrom == p.1.chrom)) (some p.1.s) (some p.1.e) mode) :=
+  byRanges_selection_same_chromosome table other mode ke
 
 /-- `into_ranges` returns exactly one value per query range, for any tables (missing
     chromosomes, empty tables included) -/
